@@ -12,10 +12,22 @@ import time
 
 VERIF = os.path.dirname(os.path.dirname(os.path.abspath(__file__)))
 REPO = os.environ.get('VERIF_REPO', '/repo')
-COQ = os.path.join(VERIF, 'coq')
-HARNESS = os.path.join(VERIF, 'harness')
 WORK = os.path.join(VERIF, 'work')
-EVID = os.path.join(VERIF, 'evidence')
+ALT = os.path.realpath(REPO) != '/repo'
+if ALT:
+    # Shadow mode (VERIF_REPO=<scratch worktree>): run the same checks against another copy of the
+    # repository without touching /verif's build products or evidence.  Used to try seeded changes.
+    _h = hashlib.sha256(os.path.realpath(REPO).encode()).hexdigest()[:10]
+    SHADOW = os.path.join(WORK, 'alt-' + _h)
+    COQ = os.path.join(SHADOW, 'coq')
+    HARNESS = os.path.join(SHADOW, 'harness')
+    EVID = os.path.join(SHADOW, 'evidence')
+    WORK = os.path.join(SHADOW, 'work')
+else:
+    SHADOW = None
+    COQ = os.path.join(VERIF, 'coq')
+    HARNESS = os.path.join(VERIF, 'harness')
+    EVID = os.path.join(VERIF, 'evidence')
 CORPUS = os.path.join(REPO, 'crates/resvg/tests/tests')
 TESTS_DIR = os.path.join(REPO, 'crates/resvg/tests')
 GUARD = 'resvg_verif'
@@ -27,6 +39,27 @@ ALLOWED_AXIOMS = {
 FORBIDDEN_RE = re.compile(
     r"\b(Admitted|admit|Axiom|Axioms|Parameter|Parameters|Conjecture|Conjectures|Unset\s+Guard\s+Checking|"
     r"bypass_check|Admit\s+Obligations|Unset\s+Positivity|Unset\s+Universe\s+Checking|type-in-type|impredicative-set)\b")
+
+
+def prepare_shadow():
+    """Copy the Coq sources and the harness sources into the shadow tree (keeping build products)."""
+    if not ALT:
+        return
+    os.makedirs(SHADOW, exist_ok=True)
+    os.makedirs(WORK, exist_ok=True)
+    os.makedirs(EVID, exist_ok=True)
+    subprocess.run(['rsync', '-a', '--delete', '--exclude', '*.vo', '--exclude', '*.vok', '--exclude', '*.vos',
+                    '--exclude', '*.glob', '--exclude', '*.aux', '--exclude', '.*.d', '--exclude', 'Gen/',
+                    '--exclude', 'Makefile', '--exclude', 'Makefile.conf', '--exclude', '.Makefile.d',
+                    '--exclude', '_CoqProject.files',
+                    os.path.join(VERIF, 'coq') + '/', COQ + '/'], check=True)
+    os.makedirs(os.path.join(COQ, 'Gen'), exist_ok=True)
+    subprocess.run(['rsync', '-a', '--delete', '--exclude', 'target/', '--exclude', 'Cargo.toml', '--exclude', 'Cargo.lock',
+                    os.path.join(VERIF, 'harness') + '/', HARNESS + '/'], check=True)
+    toml = open(os.path.join(VERIF, 'harness', 'Cargo.toml')).read().replace('/repo/', os.path.realpath(REPO) + '/')
+    tp = os.path.join(HARNESS, 'Cargo.toml')
+    if not os.path.exists(tp) or open(tp).read() != toml:
+        open(tp, 'w').write(toml)
 
 
 class Lock:
@@ -47,6 +80,7 @@ class Lock:
 def run(cmd, timeout=None, cwd=None, env=None, inp=None):
     e = dict(os.environ)
     e['CARGO_NET_OFFLINE'] = 'true'
+    e['VERIF_REPO'] = os.path.realpath(REPO)
     if env:
         e.update(env)
     try:
@@ -126,6 +160,7 @@ class Ctx:
         self.cov = dict(obligations=0, discharged=0, checker_cmd='', trusted_base=[], evaluations=0,
                         distinct_nontrivial=0, rule='', samples=[])
         self.assumptions = []
+        prepare_shadow()
         self.rng = SplitMix64(seed ^ int(hashlib.sha256(pid.encode()).hexdigest()[:8], 16))
         self.workdir = os.path.join(WORK, pid)
         os.makedirs(self.workdir, exist_ok=True)
@@ -141,7 +176,8 @@ class Ctx:
     # ---------------------------------------------------------------- translator
     def translate(self):
         with Lock('coq'):
-            rc, out = run([sys.executable, os.path.join(VERIF, 'tools', 'translate.py')], timeout=120)
+            rc, out = run([sys.executable, os.path.join(VERIF, 'tools', 'translate.py')], timeout=120,
+                          env={'VERIF_GEN': os.path.join(COQ, 'Gen')})
         if rc != 0:
             self.log("translator failed:\n" + out)
             self.status = dict(broken=[dict(kind='translator', name='translate.py', props=[self.pid], err=out[-500:])])
@@ -341,6 +377,7 @@ class Ctx:
                 cur = idxs[pos:]
                 inp = "".join("%d\t%s\n" % (i, items[i]) for i in cur)
                 e = dict(os.environ)
+                e['VERIF_REPO'] = os.path.realpath(REPO)
                 p = subprocess.Popen([binp, op] + list(extra), cwd=TESTS_DIR, stdin=subprocess.PIPE,
                                      stdout=subprocess.PIPE, stderr=subprocess.PIPE, env=e)
                 try:
